@@ -196,7 +196,10 @@ Definition sel (v : gval) (f : string) : res gval :=
       if f =? "ChainID" then RRet (VN (s_chain s)) else
       if f =? "LastBlockHeight" then RRet (VN (s_height s)) else
       if f =? "LastBlockTime" then RRet (VZ (s_time s)) else
-      if f =? "AppHash" then RRet (VRoot (s_app s)) else RFail ("State." ++ f)
+      if f =? "AppHash" then RRet (VRoot (s_app s)) else
+      if f =? "InitialHeight" then RRet (VN (s_initial s)) else
+      if f =? "DAHeight" then RRet (VN (s_da s)) else
+      if f =? "Version" then RRet VUnit else RFail ("State." ++ f)
   | VMgr m =>
       if f =? "genesis" then RRet (VGenesis (mg_genesis m)) else
       if f =? "config" then RRet (VCfg m ["config"]) else
@@ -241,6 +244,10 @@ Definition meth (v : gval) (m : string) (args : list gval) : res gval :=
       if m =? "Height" then RRet (VN (h_height (sh_hdr sh))) else
       if m =? "Time" then RRet (VZ (h_time (sh_hdr sh))) else
       if m =? "Hash" then RRet (VHash (sh_hdr sh)) else RFail ("SignedHeader." ++ m)
+  | VHeader h, [] =>
+      if m =? "ChainID" then RRet (VN (h_chain h)) else
+      if m =? "Height" then RRet (VN (h_height h)) else
+      if m =? "Time" then RRet (VZ (h_time h)) else RFail ("Header." ++ m)
   | VData d, [] =>
       if m =? "DACommitment" then RRet (VCommit (d_txs d)) else
       if m =? "MarshalBinary" then RRet (VTuple [VDataBytes d; VErr false]) else
